@@ -64,6 +64,7 @@ struct CharsCollector : public FormatterListener {
 
 int main(int argc, char** argv) {
     if (argc < 2) { fprintf(stderr, "usage: %s cases.ndjson\n", argv[0]); return 2; }
+    setvbuf(stdout, nullptr, _IOLBF, 0);  // one result per line reaches the file even if a later case kills the process
     Platform platform;
     XalanTransformer::initialize();      // installs the XSLT function table as well
     {
